@@ -1,9 +1,15 @@
 package props
 
 import (
+	"fmt"
+	"go/token"
+	"go/types"
+	"strings"
+
 	"golang.org/x/tools/go/ssa"
 
 	"utilcheck/flow"
+	"utilcheck/pred"
 )
 
 func init() {
@@ -23,6 +29,15 @@ func init() {
 }
 
 func runC06(e *Env) {
+	ruleC06Core(e, "C06.core")
+	ruleC06Empty(e, "C06.empty")
+	ruleC06Build(e, "C06.build")
+	ruleC06Entry(e, "C06.entry")
+	ruleSuffix(e, "C06.numorder")
+	e.S.Floor("C06.core", 28)
+	e.S.Floor("C06.empty", 3)
+	e.S.Floor("C06.build", 1)
+	e.S.Floor("C06.entry", 24)
 	dcp := e.Fn("C06.sep", "sem", "DefaultComparePreRelease")
 	if dcp != nil {
 		reach := e.C.Reachable(dcp)
@@ -35,4 +50,305 @@ func runC06(e *Env) {
 	}
 	e.S.Floor("C06.sep", 1)
 	e.S.Floor("C06.num", 1)
+}
+
+// ruleC06Core: Ver.Compare over the 27 orderings of (Major, Minor, Patch).
+func ruleC06Core(e *Env, rule string) {
+	sp := e.P.ByName["sem"]
+	cmp := e.Method(rule, "sem", "Ver", "Compare")
+	if sp == nil || cmp == nil || sp.Type("Ver") == nil {
+		return
+	}
+	verT := sp.Type("Ver").Type()
+	site := flow.FnName(cmp)
+	fields := []string{"Major", "Minor", "Patch"}
+	for a := -1; a <= 1; a++ {
+		for b := -1; b <= 1; b++ {
+			for c := -1; c <= 1; c++ {
+				construct := fmt.Sprintf("Major%s Minor%s Patch%s", ordSym(a), ordSym(b), ordSym(c))
+				o := &ordOracle{ord: map[string]int{"v.Major|ver.Major": a, "v.Minor|ver.Minor": b, "v.Patch|ver.Patch": c}}
+				ev := &pred.Evaluator{Prog: e.P.SSA, Oracle: o}
+				out, err := ev.Eval(cmp, []pred.Val{symStruct(verT, "v"), symStruct(verT, "ver")})
+				if err != nil {
+					e.S.Unk(rule, site, construct, "not decidable by field-order abstraction: "+err.Error(), e.Pos(cmp))
+					continue
+				}
+				side := true
+				for _, q := range ev.Asked {
+					okAsk := false
+					for _, f := range fields {
+						if strings.HasPrefix(q, "v."+f+" ") && strings.HasSuffix(q, " ver."+f) || strings.HasPrefix(q, "ver."+f+" ") && strings.HasSuffix(q, " v."+f) {
+							okAsk = true
+						}
+					}
+					if !okAsk {
+						side = false
+						e.S.Unk(rule, site, construct, "side condition broken: Compare asks "+q+", not a same-field comparison of the core", e.Pos(cmp))
+					}
+				}
+				if !side {
+					continue
+				}
+				lex := a
+				if lex == 0 {
+					lex = b
+				}
+				if lex == 0 {
+					lex = c
+				}
+				if lex != 0 {
+					k, ok := intOf(out.Ret)
+					if !ok || int(k) != lex {
+						e.S.Bad(rule, site, construct, fmt.Sprintf("receiver vs argument with %s: Compare returns %v, numeric precedence demands %d", construct, out.Ret, lex), e.Pos(cmp), construct)
+					} else {
+						e.S.Ok(rule, site, construct, fmt.Sprintf("Compare = %d", lex), e.Pos(cmp))
+					}
+					continue
+				}
+				want := "dyn:*sem.ComparePreRelease(v.PreRelease,ver.PreRelease)"
+				if out.Ret.String() != want {
+					e.S.Bad(rule, site, construct, fmt.Sprintf("for equal cores Compare returns %v; documented: ComparePreRelease(receiver.PreRelease, argument.PreRelease)", out.Ret), e.Pos(cmp), "")
+				} else {
+					e.S.Ok(rule, site, construct, "equal core ⇒ ComparePreRelease(v.PreRelease, ver.PreRelease)", e.Pos(cmp))
+				}
+			}
+		}
+	}
+	// the global comparator is the default one and nothing reassigns it
+	g := e.Var(rule, "sem", "ComparePreRelease")
+	dcp := e.P.Func("sem", "DefaultComparePreRelease")
+	if g != nil {
+		if f := e.C.GlobalFuncInit(g); f == nil || flow.Origin(f) != dcp {
+			e.S.Bad(rule, "sem.ComparePreRelease", "initialiser", "the global comparator is not initialised to DefaultComparePreRelease (or is reassigned inside the module)", "", "")
+		} else {
+			e.S.Ok(rule, "sem.ComparePreRelease", "initialiser", "= DefaultComparePreRelease[string,string], never reassigned inside the module", "")
+		}
+	}
+}
+
+// preReleaseTable evaluates DefaultComparePreRelease over the length orderings with comparePreRelease uninterpreted.
+// It returns outcome strings keyed by "la0,lb0,lalb".
+func preReleaseTable(e *Env, rule string) map[string]string {
+	dcp := e.Fn(rule, "sem", "DefaultComparePreRelease")
+	if dcp == nil {
+		return nil
+	}
+	site := flow.FnName(dcp)
+	// uninterpreted: every in-repo callee of DefaultComparePreRelease that receives both operands
+	sums := map[string]pred.Summary{}
+	for _, call := range e.C.Calls(dcp, flow.InRepo) {
+		callee := e.C.StaticCallee(&call.Call)
+		sums[callee.String()] = func(ev *pred.Evaluator, args []pred.Val) (pred.Val, error) {
+			return pred.Term{Fn: "cPR", Args: args}, nil
+		}
+	}
+	table := map[string]string{}
+	for la0 := 0; la0 <= 1; la0++ {
+		for lb0 := 0; lb0 <= 1; lb0++ {
+			for lalb := -1; lalb <= 1; lalb++ {
+				if la0 == 0 && lb0 == 0 && lalb != 0 || la0 == 0 && lb0 == 1 && lalb != -1 || la0 == 1 && lb0 == 0 && lalb != 1 {
+					continue
+				}
+				o := &ordOracle{ord: map[string]int{"len(a)|0": la0, "len(b)|0": lb0, "len(a)|len(b)": lalb}}
+				ev := &pred.Evaluator{Prog: e.P.SSA, Oracle: o, Summaries: sums}
+				out, err := ev.Eval(dcp, []pred.Val{pred.Sym{Name: "a"}, pred.Sym{Name: "b"}})
+				key := fmt.Sprintf("%d,%d,%d", la0, lb0, lalb)
+				if err != nil {
+					e.S.Unk(rule, site, "lengths "+key, "not decidable by length-order abstraction: "+err.Error(), e.Pos(dcp))
+					return nil
+				}
+				table[key] = out.Ret.String()
+			}
+		}
+	}
+	return table
+}
+
+func ruleC06Empty(e *Env, rule string) {
+	t := preReleaseTable(e, rule)
+	if t == nil {
+		return
+	}
+	site := "sem.DefaultComparePreRelease"
+	for _, c := range []struct{ key, name, want string }{
+		{"0,0,0", "both empty", "0"}, {"0,1,-1", "only a empty", "1"}, {"1,0,1", "only b empty", "-1"},
+	} {
+		if t[c.key] == c.want {
+			e.S.Ok(rule, site, c.name, "result "+c.want+" (a release ranks above any pre-release)", "")
+		} else {
+			e.S.Bad(rule, site, c.name, fmt.Sprintf("result %s, SemVer §11 demands %s", t[c.key], c.want), "", "")
+		}
+	}
+}
+
+// ruleC06Build: no function reachable from Ver.Compare (through the default comparator) reads Ver.Build.
+func ruleC06Build(e *Env, rule string) {
+	cmp := e.Method(rule, "sem", "Ver", "Compare")
+	sp := e.P.ByName["sem"]
+	if cmp == nil || sp == nil || sp.Type("Ver") == nil {
+		return
+	}
+	st, _ := sp.Type("Ver").Type().Underlying().(*types.Struct)
+	if st == nil {
+		return
+	}
+	buildIdx := -1
+	for i := 0; i < st.NumFields(); i++ {
+		if st.Field(i).Name() == "Build" {
+			buildIdx = i
+		}
+	}
+	if buildIdx < 0 {
+		e.S.Unk(rule, "sem.Ver", "Build", "field Build not found", "")
+		return
+	}
+	verT := sp.Type("Ver").Type()
+	bad := false
+	for _, fn := range flow.SortedFuncs(e.C.Reachable(cmp)) {
+		for _, b := range fn.Blocks {
+			for _, in := range b.Instrs {
+				switch x := in.(type) {
+				case *ssa.FieldAddr:
+					if pt, ok := x.X.Type().Underlying().(*types.Pointer); ok && types.Identical(pt.Elem(), verT) && x.Field == buildIdx {
+						e.S.Bad(rule, flow.FnName(fn), "reads Build", "the comparison path reads Ver.Build: build metadata can influence precedence", e.posOf(x), "1.0.0+a vs 1.0.0+b")
+						bad = true
+					}
+				case *ssa.Field:
+					if types.Identical(x.X.Type(), verT) && x.Field == buildIdx {
+						e.S.Bad(rule, flow.FnName(fn), "reads Build", "the comparison path reads Ver.Build: build metadata can influence precedence", e.posOf(x), "1.0.0+a vs 1.0.0+b")
+						bad = true
+					}
+				}
+			}
+		}
+	}
+	if !bad {
+		e.S.Ok(rule, flow.FnName(cmp), "Build unread", fmt.Sprintf("none of the %d functions reachable from Ver.Compare reads Ver.Build", len(e.C.Reachable(cmp))), e.Pos(cmp))
+	}
+}
+
+// ruleC06Entry: the six string helpers.
+func ruleC06Entry(e *Env, rule string) {
+	type ent struct{ name, parser, method string }
+	for _, x := range []ent{
+		{"Compare", "Parse", "Compare"}, {"CompareVersion", "ParseVersion", "Compare"}, {"CompareTag", "ParseTag", "Compare"},
+		{"Latest", "Parse", "Latest"}, {"LatestVersion", "ParseVersion", "Latest"}, {"LatestTag", "ParseTag", "Latest"},
+	} {
+		fn := e.Fn(rule, "sem", x.name)
+		if fn == nil {
+			continue
+		}
+		site := flow.FnName(fn)
+		parser := e.P.Func("sem", x.parser)
+		method := e.P.Method("sem", "Ver", x.method)
+		var parses []*ssa.Call
+		for _, c := range e.C.Calls(fn, flow.InRepo) {
+			callee := e.C.StaticCallee(&c.Call)
+			switch {
+			case callee == parser:
+				parses = append(parses, c)
+			case strings.HasPrefix(callee.Name(), "Parse") || callee.Name() == "DefaultParser" || callee.Name() == "unmarshalText":
+				e.S.Bad(rule, site, "parser", x.name+" parses with "+callee.Name()+", documented is "+x.parser+": it accepts a different set of texts", e.posOf(c), "")
+			}
+		}
+		if len(parses) != 2 {
+			e.S.Unk(rule, site, "parser", fmt.Sprintf("%d calls to %s found, expected one per operand", len(parses), x.parser), e.Pos(fn))
+			continue
+		}
+		// which parse call takes which parameter
+		var pa, pb *ssa.Call
+		for _, c := range parses {
+			switch flow.RootParam(c.Call.Args[0]) {
+			case fn.Params[0]:
+				pa = c
+			case fn.Params[1]:
+				pb = c
+			}
+		}
+		if pa == nil || pb == nil {
+			e.S.Bad(rule, site, "operands", "the two operands are not each parsed once (same operand parsed twice?)", e.Pos(fn), "")
+			continue
+		}
+		e.S.Ok(rule, site, "parser", "both operands parsed with "+x.parser, e.Pos(fn))
+		// each error tested and returned with a zero value
+		okErr := true
+		for _, c := range []*ssa.Call{pa, pb} {
+			cont := errContinuation(c)
+			if cont == nil {
+				okErr = false
+			}
+		}
+		if okErr {
+			e.S.Ok(rule, site, "errors", "both parse errors are tested; the failing edges return (checked by errzero/wrap rules)", e.Pos(fn))
+		} else {
+			e.S.Bad(rule, site, "errors", "a parse error is not tested before the value is used: an invalid text does not produce an error", e.Pos(fn), "")
+		}
+		// result: method(recv = value of pa, arg = value of pb)
+		var mcall *ssa.Call
+		for _, c := range e.C.Calls(fn, func(f *ssa.Function) bool { return f == method }) {
+			mcall = c
+		}
+		if mcall == nil {
+			e.S.Bad(rule, site, "result", "the result is not computed by Ver."+x.method, e.Pos(fn), "")
+			continue
+		}
+		isVal := func(v ssa.Value, parse *ssa.Call) bool {
+			ex, ok := v.(*ssa.Extract)
+			return ok && ex.Tuple == ssa.Value(parse) && ex.Index == 0
+		}
+		switch {
+		case isVal(mcall.Call.Args[0], pa) && isVal(mcall.Call.Args[1], pb):
+			e.S.Ok(rule, site, "result", "returns parse(a)."+x.method+"(parse(b))", e.posOf(mcall))
+		case isVal(mcall.Call.Args[0], pb) && isVal(mcall.Call.Args[1], pa):
+			if x.method == "Compare" {
+				e.S.Bad(rule, site, "result", "operands swapped: returns parse(b).Compare(parse(a)), the sign is inverted", e.posOf(mcall), "")
+			} else {
+				e.S.Ok(rule, site, "result", "returns parse(b).Latest(parse(a)) (symmetric up to ties)", e.posOf(mcall))
+			}
+		default:
+			e.S.Bad(rule, site, "result", "the method is not applied to the two parsed operands", e.posOf(mcall), "")
+		}
+		// and the method's result is what is returned with a nil error
+		ret := false
+		for _, r := range flow.Returns(fn) {
+			if len(r.Results) == 2 && r.Results[0] == ssa.Value(mcall) && flow.IsNilConst(r.Results[1]) {
+				ret = true
+			}
+		}
+		if !ret {
+			e.S.Bad(rule, site, "return", "the method's result is not returned unchanged with a nil error", e.Pos(fn), "")
+		} else {
+			e.S.Ok(rule, site, "return", "method result returned unchanged with nil error", e.Pos(fn))
+		}
+	}
+}
+
+// errContinuation: `v, err := call; if err != nil { return … }` — returns the continuation block, nil otherwise.
+func errContinuation(call *ssa.Call) *ssa.BasicBlock {
+	for _, r := range *call.Referrers() {
+		ex, ok := r.(*ssa.Extract)
+		if !ok || ex.Index != 1 {
+			continue
+		}
+		for _, r2 := range *ex.Referrers() {
+			bo, ok := r2.(*ssa.BinOp)
+			if !ok || !flow.IsNilConst(bo.Y) {
+				continue
+			}
+			for _, r3 := range *bo.Referrers() {
+				iff, ok := r3.(*ssa.If)
+				if !ok {
+					continue
+				}
+				errEdge, okEdge := iff.Block().Succs[0], iff.Block().Succs[1]
+				if bo.Op == token.EQL {
+					errEdge, okEdge = okEdge, errEdge
+				}
+				if flow.LeadsOnlyToErrors(errEdge) {
+					return okEdge
+				}
+			}
+		}
+	}
+	return nil
 }
